@@ -25,6 +25,36 @@ Theorem C20_new_is_literal_assign : forall fuel T init, fixed_size T -> init <> 
 Proof. exact new_is_literal_assign. Qed.
 Print Assumptions C20_new_is_literal_assign.
 
+(* Memory safety of ffi.new, all nesting depths: for every type whose layout is well formed
+   (wf_type: fields inside their struct, bit-field units inside, flexible arrays flagged) and in
+   which no array has var-sized structs as items, for every initialiser (lists, tuples, dicts,
+   bytes, str, cdata, lengths; valid or not) and any fuel, no byte is written outside the block
+   whose size the sizing pass computed (a write outside it is the model's SegV). *)
+Theorem C20_sizing_dominates : forall fuel T init,
+  wf_type (new_target T) = true -> no_var_items (new_target T) = true ->
+  new_bytes fuel T init <> Err SegV.
+Proof. exact sizing_dominates. Qed.
+Print Assumptions C20_sizing_dominates.
+
+(* the invariant behind it, usable for assignments too: converting any initialiser into a
+   fixed-size type at offset off touches only the block and keeps its length, whenever
+   [off, off + sizeof) lies inside the block — a nested initialiser cannot spill over *)
+Theorem C20_assign_stays_inside : forall fuel t off init m,
+  wf_type t = true -> no_var_items t = true -> has_var t = false -> 0 <= lsize t ->
+  0 <= off -> off + lsize t <= mlen m ->
+  fill fuel t off init m <> Err SegV /\ forall m', fill fuel t off init m = Ok m' -> mlen m' = mlen m.
+Proof. exact assign_safe. Qed.
+Print Assumptions C20_assign_stays_inside.
+
+(* general form: a block as large as the sizing pass asks for (need) is enough for the filling
+   pass, at every offset and nesting depth *)
+Theorem C20_need_is_enough : forall fuel t off v m n,
+  wf_type t = true -> no_var_items t = true -> 0 <= lsize t -> 0 <= off ->
+  need fuel t v = Ok n -> off + n <= mlen m ->
+  fill fuel t off v m <> Err SegV /\ forall m', fill fuel t off v m = Ok m' -> mlen m' = mlen m.
+Proof. intros fuel. exact (P_all fuel fuel (le_n _)). Qed.
+Print Assumptions C20_need_is_enough.
+
 (* The sizing pass does NOT dominate the filling pass for every type cffi accepts: an array of
    var-sized structs is filled item by item, flexible parts included, but sized as len*sizeof.
    struct V { int n; int a[]; };  ffi.new("struct V[1]", [[1, [1,2,3]]])  writes 16 bytes into 4+... *)
@@ -37,3 +67,28 @@ Proof.
   split; vm_compute; reflexivity.
 Qed.
 Print Assumptions C20_sizing_dominates_refuted.
+
+(* the same through a struct member:  struct W { struct V arr[2]; } *)
+Definition t_W := LAgg 8 false [(LArr t_V 2, 0, -1, -1, 0)].
+Example C20_refuted_member :
+  no_var_items t_W = false /\ new_bytes FUEL (NewPtr t_W)
+    (VList [VList [VList [VInt 1; VList [VInt 1; VInt 2; VInt 3]]; VList [VInt 2]]]) = Err SegV.
+Proof. repeat split; vm_compute; reflexivity. Qed.
+
+(* ---- non-vacuity: a var-sized struct nested in a struct, initialised three levels deep
+   struct V { int n; int a[]; };  struct X { int k; struct V v; };
+   ffi.new("struct X *", [5, [1, [7, 8, 9]]])  ->  20 bytes *)
+Definition t_X := LAgg 8 true [(t_int, 0, -1, -1, 0); (t_V, 4, -1, -1, 0)].
+Example C20_example_nested :
+  wf_type t_X = true /\ no_var_items t_X = true /\ alloc_size FUEL (NewPtr t_X) (VList [VInt 5; VList [VInt 1; VList [VInt 7; VInt 8; VInt 9]]]) = Ok 20 /\ new_bytes FUEL (NewPtr t_X) (VList [VInt 5; VList [VInt 1; VList [VInt 7; VInt 8; VInt 9]]])
+  = Ok [5;0;0;0; 1;0;0;0; 7;0;0;0; 8;0;0;0; 9;0;0;0] /\ (* a length instead of items: sized, left zero *)
+  new_bytes FUEL (NewPtr t_X) (VDict [(1, VDict [(1, VInt 3)])]) = Ok (zeros 20) /\ (* errors are explicit results *)
+  new_bytes FUEL (NewPtr t_X) (VList [VInt 5; VList [VInt 1; VInt (-1)]]) = Err ValueError /\ new_bytes FUEL (NewPtr t_X) (VList [VInt 5; VList []; VInt 2]) = Err ValueError /\ new_bytes FUEL (NewPtr t_X) (VDict [(7, VInt 0)]) = Err KeyError /\ new_bytes FUEL (NewPtr t_X) (VList [VInt (2 ^ 31)]) = Err OverflowError.
+Proof. repeat split; vm_compute; reflexivity. Qed.
+
+(* a union sequence sets the first member only; bit-field store is a read-modify-write *)
+Definition t_U := LAgg 4 false [(t_int, 0, -1, -1, 0); (LPrim KChar 1, 0, -1, -1, 1)].
+Definition t_B := LAgg 4 false [(t_int, 0, 0, 3, 0); (t_int, 0, 3, 5, 0)].
+Example C20_example_union_bitfield :
+  new_bytes FUEL (NewPtr t_U) (VList [VInt 258]) = Ok [2; 1; 0; 0] /\ new_bytes FUEL (NewPtr t_U) (VList [VInt 1; VBytes [65]]) = Err ValueError /\ new_bytes FUEL (NewPtr t_B) (VList [VInt (-1); VInt 9]) = Ok [79; 0; 0; 0].
+Proof. repeat split; vm_compute; reflexivity. Qed.
